@@ -94,11 +94,11 @@ def r2_createtoken(ctx, prog, rule_id='C14.R2'):
             r.ok(g['qname'], site + ' clears flags', 'cleared: %s' % sorted(cleared), file=g['file'], line=g['line'])
 
 
-def r3_keying(ctx, prog):
+def r3_keying(ctx, prog, rule_id='C14.R3'):
     sub = type(ctx)('C14', ctx.tier, mutated=ctx.mutated, quiet=True)
     sub._progs = ctx._progs
     c11.r2_pairing(sub, prog)
-    r = ctx.rule('C14.R3', 'per-token keying: closes and purges use the handle/slot of this call; slot derived from the token serial', floor=10, engine='E3+E6')
+    r = ctx.rule(rule_id, 'per-token keying: closes and purges use the handle/slot of this call; slot derived from the token serial', floor=10, engine='E3+E6')
     r.instances = [i for i in sub.rules[0].instances if i['function'] in ('SoftHSM::C_CloseSession', 'SoftHSM::C_CloseAllSessions', 'SoftHSM::C_Logout')]
     r.paths = sub.rules[0].paths
     # SlotManager: slot id from the last 8 hex digits of the serial — the short-serial case is decided by the entailment rule (C14.R3b below), whatever form the code has
